@@ -29,7 +29,7 @@ def gen(ctx):
         for ity in INDEXTYPES:
             if ctx.quick and (NUMTYPES.index(nt) + INDEXTYPES.index(ity)) % 3:
                 continue
-            letters = [r.choice(['a0', 'a1', 'a3', 'aod', 'it2', 'itbad', 't-1', 't1', 't0', 'abad', 'ro', 'al'])
+            letters = [r.choice(['a0', 'a1', 'a3', 'aod', 'asw', 'abig', 'it2', 'itbad', 't-1', 't1', 't0', 'abad', 'ro', 'al'])
                        for _ in range(4 if ctx.quick else 8)]
             cases.append(rhistory_case(r, nt, r.choice(['little', 'big']), r.choice(p04.ATOMS), ity,
                                        r.choice(starts), letters))
